@@ -63,7 +63,7 @@ macro "sx_simp" : tactic =>
   cases ws <;> cases wh <;> cases ob <;> sx_simp
 @[grind =] theorem tStmt_delete (t wh ob lm) : tStmt (.delete t wh ob lm) = tTN t ++ (tOpt wh ++ (tOOrds ob ++ tLim lm)) := by
   cases wh <;> cases ob <;> sx_simp
-@[grind =] theorem tStmt_createTableAs (t q) : tStmt (.createTableAs t q) = tTN t ++ tQ q := by sx_simp
+@[grind =] theorem tStmt_createTableAs (t ine q) : tStmt (.createTableAs t ine q) = tTN t ++ tQ q := by sx_simp
 @[grind =] theorem tStmt_dropTable (b t) : tStmt (.dropTable b t) = tTN t := by sx_simp
 @[grind =] theorem tStmt_analyze (t p a b c) : tStmt (.analyze t p a b c) = tTN t ++ tOL p := by cases p <;> sx_simp
 @[grind =] theorem tStmt_alter (t ops) : tStmt (.alter t ops) = tTN t ++ tAOs ops := by sx_simp
@@ -98,7 +98,7 @@ def FullStmt : Stmt → Bool
   | .update ws _ sets wh ob _ => FullOWTs ws && (FullUS sets && (FullO wh && FullOOrds ob))
   | .delete _ wh ob _ => FullO wh && FullOOrds ob
   | .createTable _ => false
-  | .createTableAs _ q => FullQ q
+  | .createTableAs _ _ q => FullQ q
   | .dropTable _ _ => true
   | .set _ => false
   | .analyze _ p _ _ _ => FullPart p
